@@ -788,7 +788,7 @@ def _rows(store):
 def laws(rng, tier, ctx):
     from pyg_base._bitemporal import bi_merge, bi_read, Bi, _updated as BUPD, _series as BCOL
     count = 0
-    m = 10 if tier == 'quick' else 150
+    m = 9 if tier == 'quick' else 150
     for nd in (3, 5, 25):
         for _ in range(m):
             nver = rng.choice([2, 3, 4, 5, 6])
@@ -888,10 +888,15 @@ def laws(rng, tier, ctx):
                 return all(i in vis and (v is None or vis[i] == v) for i, v in pairs)
             cands = [j for j, (k, pairs) in enumerate(hist) if pairs and (all((i, k, v) in rows for i, v in pairs) or visible(k, pairs))]
             if cands:
-                j = rng.choice(cands)
-                k, pairs = hist[j]
+                # one to three of them, in any order, the same one possibly twice (theorem merge_idem_many; the candidates stay candidates:
+                # the test is on reads, and the reads do not change)
+                js = [rng.choice(cands) for _ in range(rng.choice([1, 1, 2, 3]))]
+                j = js[0]
                 later = [(hist[-1][0] + k2, ps) for k2, ps in gen_history(rng, nd, rng.choice([1, 2, 3]), True)]
-                a, b = store, bi_merge(store, Bi(_series([(date(i), v) for i, v in pairs]), stamp(2 * k)))
+                a, b = store, store
+                for jj in js:
+                    k, pairs = hist[jj]
+                    b = bi_merge(b, Bi(_series([(date(i), v) for i, v in pairs], names=names(jj)), stamp(2 * k)))
                 for k2, ps in later:
                     new = lambda: Bi(_series([(date(i), v) for i, v in ps]), stamp(2 * k2))
                     a, b = bi_merge(a, new()), bi_merge(b, new())
@@ -900,9 +905,9 @@ def laws(rng, tier, ctx):
                         count += 1
                         ra, rb = _read(a, t, what)[0], _read(b, t, what)[0]
                         if ra != rb and bad is None:
-                            bad = ('law-remerge-future', lines + [merge_line(k, pairs)] + [merge_line(k2, ps) for k2, ps in later] + [read_line(t, what)],
-                                   're-merging version %d (its values are the ones visible as of its stamp) changed bi_read(asof=%s, what=%d) after %d further merges: %s -> %s'
-                                   % (j, t, what, len(later), ra, rb))
+                            bad = ('law-remerge-future', lines + [merge_line(*hist[jj], names(jj)) for jj in js] + [merge_line(k2, ps) for k2, ps in later] + [read_line(t, what)],
+                                   're-merging version(s) %s (their values are the ones visible as of their stamps) changed bi_read(asof=%s, what=%d) after %d further merges: %s -> %s'
+                                   % (js, t, what, len(later), ra, rb))
             # a read is a read (review t5): bi_read leaves the store it is given as it was (values, stamps, dtypes, index name), and the
             # same read twice is the same Series including the name of its index - on a store no read has touched yet
             fresh = None
@@ -927,6 +932,30 @@ def laws(rng, tier, ctx):
                 yield Finding('violation', dict(tag=bad[0], lines=bad[1], atomic=True, ordered=True), bad[2])
             if first_bad is not None:
                 yield first_bad
+    # values that are not small integers (review t5): the model and the wire hold tokens 1..5; the code is vectorised and should not care
+    # what the floats are.  The statement (py_spec) on histories whose tokens stand for non-integer floats, huge / tiny numbers, infinities
+    # and the two zeros (0.0 == -0.0: a "repeat" in the sense of ==, either zero may be read - python's == on the dicts agrees)
+    PALETTE = [0.1 + 0.2, 0.3, 1e300, -1e300, float('inf'), float('-inf'), 5e-324, 2.0 ** 53, 2.0 ** 53 + 2, 0.5, 0.0, -0.0]
+    for nd in (3, 5, 25):
+        for _ in range(max(3, m // 3)):
+            hist = gen_history(rng, nd, rng.choice([2, 3, 4, 5, 6]), True, nonempty_start=True)
+            pal = dict(zip([1, 2, 3, 4, 5], rng.sample(PALETTE, 5)))
+            fhist = [(k, [(i, None if v is None else pal[v]) for i, v in pairs]) for k, pairs in hist]
+            store, bad = None, None
+            for k, pairs in fhist:
+                store = bi_merge(store, Bi(pd.Series([np.nan if v is None else v for _, v in pairs], index=pd.DatetimeIndex([date(i) for i, _ in pairs]), dtype=float),
+                                           stamp(2 * k)))
+            for t in read_times(hist):
+                for what, first in ((-1, False), (0, True)):
+                    count += 1
+                    r = bi_read(store, None if t is None else stamp(t), what)
+                    got = {int((pd.Timestamp(x).to_pydatetime() - D0) // DAY): (None if v != v else float(v)) for x, v in zip(r.index, r.values)}
+                    want = py_spec(fhist, t, first)
+                    if (got != want or len(r) != len(want)) and bad is None:
+                        bad = 'bi_read(asof=%s, what=%d) = %s but the publication log gives %s (values %s stand for the tokens of the lines)' % (t, what, got, want, pal)
+                        badlines = [merge_line(k, pairs) for k, pairs in hist] + [read_line(t, what)]
+            if bad is not None:
+                yield Finding('violation', dict(tag='law-read-spec-floats', lines=badlines, atomic=True, ordered=True), bad)
     # frames, column by column (theorem frame_read_last_columns): when per date every version carries a new stamp, what='last'
     # is in every column the fold of that column's publications
     from pyg_base._bitemporal import bi_read
